@@ -4,6 +4,8 @@
  * VERIF_LOOP(id)   sits between a loop header and its body; with the guard on it expands to the loop
  *                  contract text that the verification harness supplies for <id>.
  * VERIF_GHOST(d)   a ghost declaration/statement that only the verifier sees.
+ * VERIF_ENTRY(id)  sits after the local declarations of a function whose loops carry VERIF_LOOP markers; lets the
+ *                  verifier start an analysis at one of those loop heads.
  *
  * With the guard off both expand to nothing, so the compiled code is unchanged.
  */
@@ -15,6 +17,7 @@
 #else
 #   define VERIF_LOOP(id)
 #   define VERIF_GHOST(decl)
+#   define VERIF_ENTRY(id)
 #endif
 
 #endif /* OPNMIDI_VERIF_H */
